@@ -314,7 +314,9 @@ def binary_part(chk, rng, hists):
     file (-mapping), JSON format and the file transport; a generated history is sent to its socket; every line of the
     output file must be, byte for byte, Model/Format.v format_json of the message the model pipe produces for the
     same datagrams (exporter = 127.0.0.1 and the sending socket's port), in order."""
-    exe = '/root/scratch/goflow2-c14'
+    import tempfile, shutil
+    bdir = tempfile.mkdtemp(prefix='c14bin', dir='/root/scratch')     # own directory: checks may run side by side
+    exe = os.path.join(bdir, 'goflow2')
     p = sh('go build -o %s ./cmd/goflow2' % exe, cwd=REPO, env=GOENV, timeout=900, check=False)
     if p.returncode != 0:
         chk.record('binary', dict(concrete=False, what='cmd/goflow2 does not build: ' + p.stdout[-300:]), {})
@@ -351,10 +353,7 @@ def binary_part(chk, rng, hists):
                                                                             expected=exp[first][:1500].decode(errors='replace')),
                            what='the goflow2 binary, run with this mapping file, did not write the JSON lines the reference gives for the datagrams sent to it'), {})
     finally:
-        try:
-            os.remove(exe)
-        except OSError:
-            pass
+        shutil.rmtree(bdir, ignore_errors=True)
     chk.count('end-to-end runs of the goflow2 binary', len(runs))
     chk.count('JSON lines written by the binary and compared', nlines)
 
